@@ -194,7 +194,7 @@ class Node:
         See also :meth:`~nutree.node.Node.up`.
         """
         p = self._parent
-        return p if p._parent else None
+        return p if p._parent is not None else None
 
     def up(self, level: int = 1) -> Node:
         """Return ancestor node.
@@ -516,7 +516,7 @@ class Node:
     def get_top(self) -> Node:
         """Return toplevel ancestor (may be self)."""
         root = self
-        while root._parent._parent:
+        while root._parent._parent is not None:
             root = root._parent
         return root
 
@@ -1456,7 +1456,7 @@ class Node:
         lstrip = self.depth()
         if not add_self:
             lstrip += 1
-        if not self._parent:
+        if self._parent is None:
             add_self = False
 
         for n in self.iterator(add_self=add_self):
@@ -1478,7 +1478,7 @@ class Node:
         if style == "list":
             if repr is None:
                 repr = self.DEFAULT_RENDER_REPR
-            if not self._parent:
+            if self._parent is None:
                 # Never render the system root (the title is rendered by the caller)
                 add_self = False
             for n in self.iterator(add_self=add_self):
